@@ -106,7 +106,7 @@ LoadRes(ev) ==
 \* the decision of one request
 Decision(res, n, t) ==
     LET bad == {r \in RulesOf(res) : ~Fits(r, n, t)} IN
-    [pass |-> bad = {}, culprits |-> {r.id : r \in bad}]
+    [pass |-> bad = {}, culprits |-> {r.id : r \in bad}, bad |-> bad]
 
 Enter(ev) ==
     /\ ev.e = "enter"
